@@ -70,6 +70,8 @@ def _case(draw, tier):
         "proteins": draw(st.booleans()),
         # the protein database may lack decoy entries (decoy groups then mirror the targets)
         "fasta_decoys": draw(st.sampled_from([True, True, False])),
+        # training-set cap (a random subset of the other folds, drawn with the run's generator)
+        "cap": draw(st.sampled_from([None, None, 0.6])),
         "fmt": draw(st.sampled_from(["tsv", "tsv", "parquet"])),
     }
 
@@ -187,7 +189,13 @@ def _run_once(case, tmp, workers, tag, models_in=None):
     folds_idx = twin._split(case["folds"], np.random.default_rng(case["brew_seed"]))
     res["folds"] = _sha(json.dumps([sorted(int(i) for i in f) for f in folds_idx]).encode())
     model = models_in if models_in is not None else _model(case)
-    _, models, scores, descs = mokapot.brew(psms, model, test_fdr=0.2, folds=case["folds"], max_workers=workers, rng=case["brew_seed"])
+    cap = None
+    if case.get("cap"):
+        nrows = len(twin.spectra_dataframe) if hasattr(twin, "spectra_dataframe") else None
+        nrows = nrows or sum(len(f) for f in folds_idx)
+        cap = int(case["cap"] * nrows * (case["folds"] - 1) / case["folds"])
+    _, models, scores, descs = mokapot.brew(psms, model, test_fdr=0.2, folds=case["folds"], max_workers=workers, rng=case["brew_seed"],
+                                            subset_max_train=cap)
     res["models"] = _model_digest(models)
     res["scores"] = _sha(b"".join(np.asarray(s, dtype=float).ravel().tobytes() for s in scores) + str(list(descs)).encode())
     prot = None
@@ -315,6 +323,8 @@ def check(case):
             require(r["files"].get(f) == A["files"][f], "differs:model-order", f"models in order {p}: result file {f} differs")
         nperm += 1
     classes = [case["learner"], f"folds{case['folds']}", f"key{case['key']}", case["fmt"]]
+    if case.get("cap"):
+        classes.append("training-cap")
     if case["proteins"] and not case.get("fasta_decoys", True):
         classes.append("target-only-database")
     if case["proteins"]:
